@@ -343,7 +343,7 @@ fn slots_of(cfg: &Cfg) -> Vec<Slot> {
 }
 
 pub fn arb_case() -> BoxedStrategy<Case18> {
-    (arb_cfg(), any::<u16>(), 0u8..15, any::<u16>(), prop::sample::select(vec!["junk", ")", "x y", "1", "(size .)", "]", "="]), prop::sample::select(vec!["UP", "DOWN", "ascending", "D", "1", "DESCC"]), any::<u64>(), prop::bool::weighted(0.2))
+    (arb_cfg(), any::<u16>(), 0u8..15, any::<u16>(), prop::sample::select(vec!["junk", ")", "x y", "1", "(size .)", "]", "="]), prop::sample::select(vec!["UP", "DOWN", "ascending", "D", "1", "DESCC", "DESC junk", "asc )", "desc asc", "ASC 1", "desc,", "ASC ASC"]), any::<u64>(), prop::bool::weighted(0.2))
         .prop_map(|(mut cfg, slot_pick, kind, cut, garbage, baddir, order, via_file)| {
             let slots = slots_of(&cfg);
             let slot = if slots.is_empty() {
